@@ -475,9 +475,10 @@ pub fn gen_c13(tier: &str, seed: u64, out: &mut Vec<String>) {
         // surrounding layout: some areas right where the heap search starts
         let mut neighbours: Vec<(u64, u64)> = vec![];
         for _ in 0..rng.below(4) {
-            let start = 0x1000 * (1 + rng.below(6));
+            // page-aligned, or somewhere inside a page (a small area in the middle of an otherwise free page)
+            let start = 0x1000 * (1 + rng.below(6)) + if rng.chance(1, 3) { *rng.pick(&[0x800u64, 0x10, 0xff0, 0x7ff]) } else { 0 };
             // also empty areas: they occupy no address but have a start
-            let len = if rng.chance(1, 6) { 0 } else { 1 + rng.below(0x1800) };
+            let len = if rng.chance(1, 6) { 0 } else if rng.chance(1, 3) { 1 + rng.below(0x20) } else { 1 + rng.below(0x1800) };
             out.push(format!("zero {:x} {:x} ~", start, len));
             neighbours.push((start, len));
         }
@@ -485,7 +486,13 @@ pub fn gen_c13(tier: &str, seed: u64, out: &mut Vec<String>) {
         if rng.chance(1, 2) {
             sys.insert(0, "60");
         }
-        out.push(format!("syscalls {}", sys.join(",")));
+        if rng.chance(1, 4) {
+            // registration in two calls whose lists overlap: what is already there is skipped, the rest is installed
+            out.push(format!("syscalls {}", *rng.pick(&["60", "60,158", "158"])));
+            out.push("syscalls 60,158,12".into());
+        } else {
+            out.push(format!("syscalls {}", sys.join(",")));
+        }
         out.push("areas".into());
         let mut heap_hint: u64 = 0; // filled by reading RAX through `rr`
         let calls = 2 + rng.below(8);
@@ -784,6 +791,12 @@ pub fn gen_c17(tier: &str, seed: u64, out: &mut Vec<String>) {
                     let chars = ['é', 'ß', 'Ā', 'Ȁ', '€', '日', '本', '𝄞', 'a', '/', '='];
                     let st: String = (0..1 + rng.below(8)).map(|_| *rng.pick(&chars)).collect();
                     st.into_bytes()
+                } else if rng.chance(1, 12) {
+                    // a Rust string may contain NUL characters; they are copied like any other byte
+                    let mut v: Vec<u8> = (0..1 + rng.below(6)).map(|_| b'a' + (rng.below(26) as u8)).collect();
+                    let at = rng.below(v.len() as u64 + 1) as usize;
+                    v.insert(at, 0);
+                    v
                 } else {
                     (0..len).map(|_| b'a' + (rng.below(26) as u8)).collect()
                 };
@@ -800,6 +813,14 @@ pub fn gen_c17(tier: &str, seed: u64, out: &mut Vec<String>) {
         if rng.chance(1, 25) {
             // sizes nobody can provide, up to the ones whose frame arithmetic leaves 64 bits: an error, never a crash
             len = *rng.pick(&[u64::MAX, u64::MAX - 15, u64::MAX - 0x47, u64::MAX - 0x1000, 1 << 63, 1 << 52]);
+        }
+        if rng.chance(1, 15) {
+            // every candidate of the stack search up to some power of two is taken: the stack lands far up (beyond 4 GiB when
+            // all of 2^12 … 2^31 are occupied)
+            let upto = *rng.pick(&[20u32, 31, 31, 32, 36]);
+            for k in 12..=upto {
+                out.push(format!("zero {:x} 1 ~", 1u64 << k));
+            }
         }
         // the program start may be set up on a machine that already has a stack (an earlier init_stack, a first program start, or
         // just an area that happens to be called "Stack"): the new frame goes into the new area
